@@ -117,7 +117,7 @@ def run_check(mod, tier, seed=0, procs=None, only=None):
 
     known = load_known().get(pid, {})
     stats = {}
-    n_ob = n_dis = n_unknown = 0
+    n_ob = n_dis = n_unknown = n_known_ob = 0
     labels = set()
     errors, viols, known_hit, samples, inconc = [], [], {}, [], []
     notdis = []
@@ -130,6 +130,8 @@ def run_check(mod, tier, seed=0, procs=None, only=None):
             labels.add((json.dumps(r["config"], sort_keys=True, default=str), o["label"]))
             if o["status"] in ("unsat", "confirmed", "refuted-as-expected", "holds"):
                 n_dis += 1
+            elif o["status"] == "known-finding":
+                n_known_ob += 1
             elif o["status"] in ("unknown", "inconclusive"):
                 n_unknown += 1
                 notdis.append({"config": r["config"], "label": o["label"],
@@ -176,6 +178,7 @@ def run_check(mod, tier, seed=0, procs=None, only=None):
         "obligations": n_ob,
         "discharged": n_dis,
         "unknown_or_inconclusive": n_unknown,
+        "obligations_failing_only_by_known_findings": n_known_ob,
         "inconclusive_notes": inconc[:20],
         "not_discharged": notdis[:40],
         "config_wall_s": sorted(
